@@ -72,7 +72,11 @@ func run(c *props.Checker, tier, repo, verif string) (code int) {
 	}
 	overlay := map[string][]byte{}
 	for i, cn := range canaries {
-		name := filepath.Join(repo, cn.RelDir, fmt.Sprintf("zz_verif_canary_%s_%d_%s.go", c.ID, i, cn.Name))
+		kind := "canary"
+		if cn.Spec {
+			kind = "spec"
+		}
+		name := filepath.Join(repo, cn.RelDir, fmt.Sprintf("zz_verif_%s_%s_%d_%s.go", kind, c.ID, i, cn.Name))
 		overlay[name] = []byte(cn.Src)
 	}
 	configs := [][2]string{{"", ""}}
